@@ -255,11 +255,22 @@ func init() {
 		name := argStr(a[0])
 		args := sliceTerms(s, a[2])
 		if s.eng.cfg.Domain == DomainX {
-			rs := make([]*Term, len(args))
-			for i, t := range args {
-				rs[i] = s.ctx.ToReal(t)
+			// one fresh real per (function, syntactic argument tuple): functional consistency for identical
+			// argument terms, no congruence beyond that (a sound over-approximation that keeps the queries in
+			// pure real arithmetic for nlsat)
+			key := name
+			for _, t := range args {
+				key += fmt.Sprintf(",%d", t.id)
 			}
-			r := s.ctx.UF("uf."+name, SReal, rs...)
+			if s.ufVars == nil {
+				s.ufVars = map[string]*Term{}
+			}
+			if r, ok := s.ufVars[key]; ok {
+				return r
+			}
+			s.fresh++
+			r := s.ctx.Var(fmt.Sprintf("uf.%s!%d", name, s.fresh), SReal)
+			s.ufVars[key] = r
 			s.setInfo(r, &FInfo{exact: false, scale: -1})
 			s.run.ufOps++
 			return r
